@@ -11,7 +11,20 @@ pub const NAMES: [&str; 3] = ["a", "b", "c"];
 pub fn probe() -> Vec<Node> {
     let mut v = vec![Node::EnvDump(NAMES.iter().map(|s| s.to_string()).collect())];
     for n in NAMES {
-        v.push(Node::If { arms: vec![(Cond::atom(Atom::Truthy(Expr::var(n))), vec![Node::Text(format!("{n}=")), Node::Out(Expr::var(n), vec![FilterCall { name: "digest".into(), args: vec![] }]), Node::Text(";".into())])], else_: None });
+        // guarded read of the whole value (structural dump, bounded) ...
+        v.push(Node::If {
+            arms: vec![(
+                Cond::atom(Atom::Truthy(Expr::var(n))),
+                vec![Node::Text(format!("{n}=")), Node::Out(Expr::var(n), vec![FilterCall { name: "vdump".into(), args: vec![] }, FilterCall { name: "digest".into(), args: vec![] }]), Node::Text(";".into())],
+            )],
+            else_: None,
+        });
+        // ... and of a member through the non-failing lookup: an inner binding without the member
+        // must not let an outer binding's member show through
+        v.push(Node::If {
+            arms: vec![(Cond::atom(Atom::Truthy(Expr::Var(Path::name(n).dot("k")))), vec![Node::Text(format!("{n}.k=")), Node::Out(Expr::Var(Path::name(n).dot("k")), vec![FilterCall { name: "vdump".into(), args: vec![] }]), Node::Text(";".into())])],
+            else_: None,
+        });
     }
     v
 }
@@ -21,7 +34,7 @@ fn with_probe(mut stmt: Vec<Node>) -> Vec<Node> {
     stmt
 }
 
-/// leaf statements of the exhaustive C04 grammar (21)
+/// leaf statements of the exhaustive C04 grammar (22)
 pub fn leaves() -> Vec<Vec<Node>> {
     let mut v = Vec::new();
     for n in NAMES {
@@ -38,6 +51,8 @@ pub fn leaves() -> Vec<Vec<Node>> {
     v.push(vec![Node::Include { name: Expr::str("pa"), args: vec![] }]);
     v.push(vec![Node::Include { name: Expr::str("pa"), args: vec![("a".into(), Expr::str("arg"))] }]);
     v.push(vec![Node::Include { name: Expr::str("pb"), args: vec![("b".into(), Expr::str("argb")), ("c".into(), Expr::int(9))] }]);
+    // the argument's value comes from a name that may be unbound at that point (c is not caller data)
+    v.push(vec![Node::Include { name: Expr::str("pa"), args: vec![("a".into(), Expr::var("c"))] }]);
     v
 }
 
@@ -142,7 +157,7 @@ pub fn expand(f: &[T]) -> Vec<Node> {
 }
 
 pub fn c04_data() -> RVal {
-    RVal::Object(vec![("a".into(), s("da")), ("b".into(), RVal::Int(5))])
+    RVal::Object(vec![("a".into(), RVal::Object(vec![("k".into(), s("dak"))])), ("b".into(), RVal::Int(5))])
 }
 
 // ---------------------------------------------------------------------------------------------
@@ -184,8 +199,14 @@ impl ScopeGen<'_> {
         for _ in 0..n {
             let k = self.name();
             if !v.iter().any(|(kk, _)| *kk == k) {
-                // arguments must be defined: an undefined argument is outside the statement
-                let e = if self.rng.chance(1, 2) { Expr::str(&format!("arg{k}")) } else { Expr::int(self.rng.range(0, 5)) };
+                // literal, a (possibly currently unbound) name, or the never-defined `u`: an argument
+                // whose value is undefined must fail the render or be bound to nil — never be dropped
+                let e = match self.rng.below(16) {
+                    0 | 1 => Expr::var(&self.name()),
+                    2 => Expr::var("u"),
+                    3..=9 => Expr::str(&format!("arg{k}")),
+                    _ => Expr::int(self.rng.range(0, 5)),
+                };
                 v.push((k, e));
             }
         }
